@@ -244,6 +244,9 @@ func C09FlOldCuts() {
 	} else {
 		decl = zzRowsDecl(1+zz.NondetChoice("rows", 2), LL)
 	}
+	if zz.Param("FREEZE", 0) == 1 {
+		zz.Freeze(decl) // the two readers share the declaration like two Transforms of one Schema
+	}
 	one := zzNewReader(&zzChunkReader{data: f.input, failAt: -1}, decl, 4096)
 	cut := zzNewReader(&zzChunkReader{data: append([]byte{}, f.input...), failAt: -1,
 		cuts: zzCuts(zz.Param("CUTS", 2), len(f.input))}, decl, zz.Param("BUF", 16))
